@@ -112,6 +112,23 @@ func main() {
 			e.Strs("doFetchFilterPool", pool, "GrpcV1.doFetch: every statement that acquires or releases the pooled docFieldsFilter, in source order")
 			e.Strs("doFetchLoopCalls", calls, "GrpcV1.doFetch: per requested id - next document, field filter, pack, ids, send")
 		}
+		// ---- the pooled filter keeps no state between fetches: acquire overwrites, release clears
+		for _, fn := range []struct{ name, lean string }{{"acquireDocFieldsFilter", "acquireFilterStmts"}, {"releaseDocFieldsFilter", "releaseFilterStmts"}} {
+			fd := f.Func("", fn.name)
+			if fd == nil {
+				e.Missing(fn.lean, fn.name+" not found")
+				continue
+			}
+			var stmts []string
+			for _, st := range fd.Body.List {
+				if is, ok := st.(*ast.IfStmt); ok {
+					stmts = append(stmts, "if "+f.Render(is.Cond)+" { "+renderBody(f, is.Body)+" }")
+				} else {
+					stmts = append(stmts, f.Render(st))
+				}
+			}
+			e.Strs(fn.lean, stmts, "storeapi."+fn.name+": statements")
+		}
 		// ---- tryParseFieldsFilter
 		g, err := r.Load("proxy/search/ingestor.go")
 		if err != nil {
